@@ -1,5 +1,6 @@
 import FCA.Model.Lattice
 import FCA.Proofs.Members
+import FCA.Proofs.OrderSpec
 /-
 `bitsets.combos.shortlex` (breadth-first queue of unions) enumerates the subsets level by level:
 level `k` lists the `k`-subsets in lexicographic order.  `outs k cur atoms` is the closed form of
@@ -270,8 +271,6 @@ theorem outs_pairwise (idx : List Nat) : ∀ (k c : Nat), idx.Pairwise (· < ·)
             · have := ha j (hs2.subset h); omega
 
 /-- short-lexicographic order on masks of width `w`: size first, then position -/
-def shortlexLt (w a b : Nat) : Prop :=
-  card w a < card w b ∨ (card w a = card w b ∧ ∃ i, i ∈ᵇ a ∧ ¬ i ∈ᵇ b ∧ ∀ k < i, (k ∈ᵇ a ↔ k ∈ᵇ b))
 
 theorem shortlexLt_irrefl (w a : Nat) : ¬ shortlexLt w a a := by
   rintro (h | ⟨_, i, h1, h2, _⟩)
